@@ -121,7 +121,14 @@ func genC14Entry(g vgU, path string, sizeMax int) c14Entry {
 	e.Text = kit.Text(vgPick(g, c14Texts, "text"))
 	if sizeMax > 0 {
 		// sizes around the limit, well above it, and above the cat-file reader's 512 KiB buffer
-		switch vgPick(g, []string{"", "", "", "", "", "", "", "", "", "", "", "over", "over", "at", "at", "under", "3x", "3x", "3x", "huge"}, "size") {
+		sizes := []string{"", "", "", "", "", "", "", "", "", "", "", "", "over", "over", "at", "at", "under", "3x", "3x", "3x"}
+		if strings.HasSuffix(path, ".big") {
+			// the paths the LargeFiles patterns are about
+			sizes = []string{"", "over", "3x", "3x", "at", "huge", "over", "3x"}
+		} else if g.Bool(3, "hugeany") {
+			sizes = []string{"huge"}
+		}
+		switch vgPick(g, sizes, "size") {
 		case "under":
 			e.Pad = sizeMax - 1 - len(e.Text)
 		case "at":
@@ -161,7 +168,7 @@ func genC14(rt *rapid.T) c14Case {
 	if !g.Bool(12, "nolargefiles") {
 		c.LargeFiles = vgPick(g, c14LargeSets, "largefiles")
 	}
-	c.ShardMax = vgPick(g, []int{0, 0, 0, 200, 2000}, "shardmax")
+	c.ShardMax = vgPick(g, []int{0, 0, 0, 60, 300}, "shardmax")
 	c.Repack = g.Bool(20, "repack")
 	c.LegacyOpen = g.Bool(15, "legacyopen")
 	c.BranchPrefix = vgPick(g, []string{"", "", "refs/heads/", "refs/heads"}, "prefix")
